@@ -197,6 +197,330 @@ theorem pinv_step (S : Sys) (tr : Trace) (inv : PInv S tr) (sc : Sched) :
           · obtain ⟨res, h1, h2⟩ := inv.ret j v s o hm
             exact ⟨res, List.mem_append_right _ h1, h2⟩
 
+/-! ### linking the answers to the trace: what a `Get` returned, and why -/
+
+/-- how one store operation changes the store, with the event that records a removal -/
+theorem micro_store' (st : Store) (act : Action) (pc : PC) :
+    (∃ s a r, pc = .pollRemove s a r ∧ (micro st act pc).1 = st.remove a ∧ (micro st act pc).2.2 = [.removed a]) ∨
+    ((micro st act pc).1 = st ∨ (∃ d, (micro st act pc).1 = (st.insert d).1) ∨
+      (∃ a d, (micro st act pc).1 = { st with heap := st.heap.modify a (fun x => { x with data := d }) })) := by
+  cases pc with
+  | pollRemove s a r => exact .inl ⟨s, a, r, rfl, rfl, rfl⟩
+  | start =>
+    right
+    cases act with
+    | init v t m =>
+      simp only [micro]
+      cases ho : opens v t with
+      | none => exact .inl rfl
+      | some tid =>
+        cases m with
+        | poll => exact .inr (.inl ⟨_, rfl⟩)
+        | userInteractive => exact .inr (.inl ⟨_, rfl⟩)
+        | immediate cs => exact .inl rfl
+        | refuse s m => exact .inl rfl
+        | noResponse => exact .inl rfl
+    | poll v s =>
+      left; simp only [micro]
+      split
+      · rfl
+      · split
+        · rfl
+        · split <;> rfl
+    | userVisit v s =>
+      left; simp only [micro]
+      split
+      · rfl
+      · split <;> rfl
+    | decide v r s d =>
+      left; simp only [micro]
+      split
+      · rfl
+      · split <;> rfl
+    | evict k => exact .inl rfl
+  | pollDelete s r =>
+    right; left; simp only [micro]
+    split <;> rfl
+  | update k d =>
+    right
+    simp only [micro]
+    cases hu : st.update k d with
+    | none => exact .inl rfl
+    | some st' =>
+      obtain ⟨a, _, rfl⟩ := Store.update_eq hu
+      exact .inr (.inr ⟨a, d, rfl⟩)
+  | done o => exact .inr (.inl rfl)
+
+/-- a `Get` is the only operation of its step, returns what the store holds, and changes nothing -/
+theorem micro_got (st : Store) (act : Action) (pc : PC) (k : Key) (res : Option Data)
+    (h : OpEv.got k res ∈ (micro st act pc).2.2) :
+    (micro st act pc).2.2 = [.got k res] ∧ res = st.get k ∧ (micro st act pc).1 = st := by
+  cases pc with
+  | start =>
+    cases act with
+    | init v t m =>
+      simp only [micro] at h ⊢
+      cases ho : opens v t with
+      | none => simp [ho] at h
+      | some tid => cases m <;> simp [ho] at h
+    | poll v s =>
+      simp only [micro] at h ⊢
+      cases hg : st.get (pollKey s) with
+      | none => (simp [hg] at h; obtain ⟨rfl, rfl⟩ := h; simp [hg])
+      | some sd =>
+        simp only [hg] at h ⊢
+        cases ho : opens v sd.ticket with
+        | none => (simp [ho] at h; obtain ⟨rfl, rfl⟩ := h; simp [hg, ho])
+        | some tid =>
+          simp only [ho] at h ⊢
+          cases hr : sd.resp <;> (simp [hr] at h; obtain ⟨rfl, rfl⟩ := h; simp [hg, ho, hr])
+    | userVisit v s =>
+      simp only [micro] at h ⊢
+      cases hg : st.get (userKey s) with
+      | none => (simp [hg] at h; obtain ⟨rfl, rfl⟩ := h; simp [hg])
+      | some sd =>
+        simp only [hg] at h ⊢
+        cases ho : opens v sd.ticket <;> (simp [ho] at h; obtain ⟨rfl, rfl⟩ := h; simp [hg, ho])
+    | decide v r s d =>
+      simp only [micro] at h ⊢
+      cases hg : st.get ⟨r, s⟩ with
+      | none => (simp [hg] at h; obtain ⟨rfl, rfl⟩ := h; simp [hg])
+      | some sd =>
+        simp only [hg] at h ⊢
+        cases hd : decideData v sd d <;> (simp [hd] at h; obtain ⟨rfl, rfl⟩ := h; simp [hg, hd])
+    | evict k' => simp [micro] at h
+  | pollDelete s r =>
+    simp only [micro] at h
+    split at h <;> simp at h
+  | pollRemove s a r => simp [micro] at h
+  | update k' d =>
+    simp only [micro] at h
+    split at h <;> simp at h
+  | done o => simp [micro] at h
+
+
+/-- the poll key of every flow ever inserted is still filed, unless the LRU dropped it or a delivering
+poll removed the flow — and the trace says which -/
+def KInv (st : Store) (tr : Trace) : Prop :=
+  ∀ a, a < st.heap.length →
+    (pollKey (2 * a + 1), a) ∈ st.keys ∨ Ev.evicted (pollKey (2 * a + 1)) ∈ tr ∨ ∃ j act, Ev.op j act (.removed a) ∈ tr
+
+theorem KInv.mono {st : Store} {tr : Trace} (h : KInv st tr) (evs : List Ev) : KInv st (evs ++ tr) := by
+  intro a ha
+  rcases h a ha with h | h | ⟨j, act, h⟩
+  · exact .inl h
+  · exact .inr (.inl (List.mem_append_right _ h))
+  · exact .inr (.inr ⟨j, act, List.mem_append_right _ h⟩)
+
+theorem remove_heap (st : Store) (a : Nat) : (st.remove a).heap = st.heap := by
+  unfold Store.remove; split <;> rfl
+
+theorem kinv_micro {st : Store} {tr : Trace} (h : KInv st tr) (wf : st.WF) (i : Nat) (act : Action) (pc : PC)
+    (evs : List Ev) (hevs : ∀ e ∈ (micro st act pc).2.2, Ev.op i act e ∈ evs) :
+    KInv (micro st act pc).1 (evs ++ tr) := by
+  rcases micro_store' st act pc with ⟨s, a0, r, rfl, hst, hev⟩ | hst | ⟨d, hst⟩ | ⟨a0, d, hst⟩
+  · rw [hst]
+    intro a ha
+    rw [remove_heap] at ha
+    by_cases haa : a = a0
+    · subst haa
+      exact .inr (.inr ⟨i, act, List.mem_append_left _ (hevs _ (by rw [hev]; simp))⟩)
+    · rcases h a ha with hm | hm | ⟨j, act', hm⟩
+      · left
+        unfold Store.remove
+        split
+        · rename_i rc hrc
+          obtain ⟨hu, hp⟩ := wf.heap_keys a0 rc hrc
+          refine List.mem_filter.mpr ⟨hm, ?_⟩
+          simp only [hu, hp, flowKey, Bool.and_eq_true, bne_iff_ne, ne_eq, Key.mk.injEq, not_and, reduceCtorEq,
+            false_implies, implies_true, and_true, true_implies]
+          omega
+        · exact hm
+      · exact .inr (.inl (List.mem_append_right _ hm))
+      · exact .inr (.inr ⟨j, act', List.mem_append_right _ hm⟩)
+  · rw [hst]; exact h.mono evs
+  · rw [hst]
+    intro a ha
+    simp only [Store.insert, List.length_append, List.length_cons, List.length_nil] at ha
+    by_cases hlt : a < st.heap.length
+    · rcases h a hlt with hm | hm | ⟨j, act', hm⟩
+      · exact .inl (by simp only [Store.insert]; exact List.mem_cons_of_mem _ (List.mem_cons_of_mem _ hm))
+      · exact .inr (.inl (List.mem_append_right _ hm))
+      · exact .inr (.inr ⟨j, act', List.mem_append_right _ hm⟩)
+    · have : a = st.heap.length := by omega
+      subst this
+      left
+      simp only [Store.insert, wf.next_eq]
+      exact List.mem_cons_self
+  · rw [hst]
+    intro a ha
+    simp only [List.length_modify] at ha
+    rcases h a ha with hm | hm | ⟨j, act', hm⟩
+    · exact .inl hm
+    · exact .inr (.inl (List.mem_append_right _ hm))
+    · exact .inr (.inr ⟨j, act', List.mem_append_right _ hm⟩)
+
+theorem kinv_evict {st : Store} {tr : Trace} (h : KInv st tr) (k : Key) : KInv (st.evict k) (Ev.evicted k :: tr) := by
+  intro a ha
+  simp only [Store.evict] at ha
+  by_cases hk : pollKey (2 * a + 1) = k
+  · exact .inr (.inl (by rw [hk]; exact List.mem_cons_self))
+  · rcases h a ha with hm | hm | ⟨j, act', hm⟩
+    · left
+      simp only [Store.evict]
+      exact List.mem_filter.mpr ⟨hm, by simpa using hk⟩
+    · exact .inr (.inl (List.mem_cons_of_mem _ hm))
+    · exact .inr (.inr ⟨j, act', List.mem_cons_of_mem _ hm⟩)
+
+
+/-- what a `Get` that returned `res`, executed when the trace was `pre`, tells about `pre`:
+a record found belongs to a flow `a` that an `init` on its ticket inserted, and holds exactly the
+response of the LAST successful decision on that flow in `pre` (none if there was none); a poll key
+of an inserted flow that is NOT found was dropped by the LRU or removed by a delivering poll -/
+def GotFacts (k : Key) (res : Option Data) (pre : Trace) : Prop :=
+  (∀ sd, res = some sd → ∃ a tid, k = flowKey a k.role ∧ sd.ticket = .good tid ∧
+      InsertedT pre tid (2 * a + 1) (2 * a) ∧ sd.resp = respOf tid (lastDecisionT (2 * a + 1) (2 * a) pre) ∧
+      ∀ t u, InsertedT pre t (2 * a + 1) u → u = 2 * a) ∧
+  (res = none → ∀ a tid us, k = pollKey (2 * a + 1) → InsertedT pre tid (2 * a + 1) us →
+      Ev.evicted k ∈ pre ∨ ∃ j act, Ev.op j act (.removed a) ∈ pre)
+
+theorem gotFacts_of_inv {st : Store} {pre : Trace} (inv : SInv st pre) (kinv : KInv st pre) (k : Key) :
+    GotFacts k (st.get k) pre := by
+  constructor
+  · intro sd hsd
+    unfold Store.get at hsd
+    cases ha : st.addr k with
+    | none => simp [ha] at hsd
+    | some a =>
+      simp only [ha] at hsd
+      cases hr : st.heap[a]? with
+      | none => simp [hr] at hsd
+      | some r =>
+        simp only [hr, Option.map_some, Option.some.injEq] at hsd
+        subst hsd
+        obtain ⟨tid, h1, h2, h3⟩ := inv.flows a r hr
+        refine ⟨a, tid, (inv.wf.addr_flowKey ha).2, h1, h2, h3, ?_⟩
+        intro t u hi
+        obtain ⟨a', _, hps, hus⟩ := inv.issued _ _ _ hi
+        omega
+  · intro hnone a tid us hk hins
+    obtain ⟨a', ha', hps, _⟩ := inv.issued _ _ _ hins
+    have : a' = a := by omega
+    subst this
+    rcases kinv a' ha' with hm | hm | hm
+    · exfalso
+      unfold Store.get at hnone
+      cases haddr : st.addr k with
+      | none => exact lookup_none haddr a' (hk ▸ hm)
+      | some b =>
+        have hb := (inv.wf.keys_wf k b (Store.addr_mem haddr)).1
+        simp only [haddr] at hnone
+        have : st.heap[b]? = some st.heap[b] := List.getElem?_eq_getElem hb
+        simp [this] at hnone
+    · exact .inl (hk ▸ hm)
+    · exact .inr hm
+
+/-- every `Get` recorded in the trace is justified by the trace before it -/
+def GotsJust (tr : Trace) : Prop :=
+  ∀ i act k res pre, (Ev.op i act (.got k res) :: pre) <:+ tr → GotFacts k res pre
+
+structure HInv (S : Sys) (tr : Trace) : Prop where
+  f : FInv S tr
+  k : KInv S.store tr
+  g : GotsJust tr
+
+theorem gotsJust_cons_other {tr : Trace} (h : GotsJust tr) (e : Ev) (he : ∀ i act k res, e ≠ .op i act (.got k res)) :
+    GotsJust (e :: tr) := by
+  intro i act k res pre hs
+  rcases List.suffix_cons_iff.mp hs with heq | hs
+  · exact absurd (List.cons.inj heq).1.symm (he i act k res)
+  · exact h i act k res pre hs
+
+theorem gotsJust_append_other {tr : Trace} (h : GotsJust tr) : ∀ (evs : List Ev),
+    (∀ e ∈ evs, ∀ i act k res, e ≠ .op i act (.got k res)) → GotsJust (evs ++ tr)
+  | [], _ => h
+  | e :: evs, he => by
+    exact gotsJust_cons_other (gotsJust_append_other h evs fun x hx => he x (List.mem_cons_of_mem _ hx)) e
+      (he e List.mem_cons_self)
+
+theorem hinv_step (S : Sys) (tr : Trace) (inv : HInv S tr) (sc : Sched) :
+    HInv (Sys.step (S, tr) sc).1 (Sys.step (S, tr) sc).2 := by
+  have hf := inv.f.sys_step (c := (S, tr)) sc
+  refine ⟨hf, ?_, ?_⟩
+  · cases sc with
+    | spawn a => simpa [Sys.step] using inv.k.mono [_]
+    | evict k => simpa [Sys.step] using kinv_evict inv.k k
+    | step i =>
+      cases hi : S.threads[i]? with
+      | none => simpa [Sys.step, hi] using inv.k
+      | some th =>
+        obtain ⟨a, pc⟩ := th
+        by_cases hd : ∃ o, pc = .done o
+        · obtain ⟨o, rfl⟩ := hd
+          simpa [Sys.step, hi] using inv.k
+        · rw [sys_step_eq S tr i a pc hi (fun o h => hd ⟨o, h⟩)]
+          have := kinv_micro inv.k inv.f.s.wf i a pc
+            (retEvs i a (micro S.store a pc).2.1 ++ ((micro S.store a pc).2.2.map (Ev.op i a)).reverse)
+            (fun e he => List.mem_append_right _ (List.mem_reverse.mpr (List.mem_map_of_mem he)))
+          simpa [List.append_assoc] using this
+  · cases sc with
+    | spawn a => simpa [Sys.step] using gotsJust_cons_other inv.g _ (by intro i act k res h; cases h)
+    | evict k => simpa [Sys.step] using gotsJust_cons_other inv.g _ (by intro i act k res h; cases h)
+    | step i =>
+      cases hi : S.threads[i]? with
+      | none => simpa [Sys.step, hi] using inv.g
+      | some th =>
+        obtain ⟨a, pc⟩ := th
+        by_cases hd : ∃ o, pc = .done o
+        · obtain ⟨o, rfl⟩ := hd
+          simpa [Sys.step, hi] using inv.g
+        · rw [sys_step_eq S tr i a pc hi (fun o h => hd ⟨o, h⟩)]
+          simp only
+          -- is the operation of this step a `Get`?
+          by_cases hg : ∃ k res, OpEv.got k res ∈ (micro S.store a pc).2.2
+          · obtain ⟨k, res, hm⟩ := hg
+            obtain ⟨hops, hres, _⟩ := micro_got S.store a pc k res hm
+            rw [hops]
+            simp only [List.map_cons, List.map_nil, List.reverse_cons, List.reverse_nil, List.nil_append]
+            have base : GotsJust (Ev.op i a (.got k res) :: tr) := by
+              intro i' act' k' res' pre hs
+              rcases List.suffix_cons_iff.mp hs with heq | hs
+              · obtain ⟨h1, h2⟩ := List.cons.inj heq
+                simp only [Ev.op.injEq, OpEv.got.injEq] at h1
+                obtain ⟨_, _, rfl, rfl⟩ := h1
+                subst h2
+                rw [hres]
+                exact gotFacts_of_inv inv.f.s inv.k k'
+              · exact inv.g i' act' k' res' pre hs
+            have := gotsJust_append_other base (retEvs i a (micro S.store a pc).2.1) (by
+              intro e he i' act' k' res' heq
+              subst heq
+              cases hpc : (micro S.store a pc).2.1 <;> simp [retEvs, hpc] at he)
+            simpa [List.append_assoc] using this
+          · have := gotsJust_append_other inv.g
+              (retEvs i a (micro S.store a pc).2.1 ++ ((micro S.store a pc).2.2.map (Ev.op i a)).reverse) (by
+              intro e he i' act' k' res' heq
+              subst heq
+              rcases List.mem_append.mp he with he | he
+              · cases hpc : (micro S.store a pc).2.1 <;> simp [retEvs, hpc] at he
+              · rw [List.mem_reverse, List.mem_map] at he
+                obtain ⟨x, hx, hxe⟩ := he
+                simp only [Ev.op.injEq] at hxe
+                exact hg ⟨k', res', hxe.2.2 ▸ hx⟩)
+            simpa [List.append_assoc] using this
+
+theorem hinv_run (sched : List Sched) : HInv (Sys.run sched).1 (Sys.run sched).2 := by
+  have : ∀ (l : List Sched) (c : Sys × Trace), HInv c.1 c.2 → HInv (l.foldl Sys.step c).1 (l.foldl Sys.step c).2 := by
+    intro l
+    induction l with
+    | nil => intro c h; exact h
+    | cons x xs ih => intro c h; exact ih _ (hinv_step c.1 c.2 h x)
+  exact this sched ({}, []) ⟨FInv.init, by intro a ha; simp at ha, by
+    intro i act k res pre hs
+    have := List.eq_nil_of_suffix_nil hs
+    cases this⟩
+
+
 theorem pinv_run (sched : List Sched) : PInv (Sys.run sched).1 (Sys.run sched).2 := by
   have : ∀ (l : List Sched) (c : Sys × Trace), PInv c.1 c.2 → PInv (l.foldl Sys.step c).1 (l.foldl Sys.step c).2 := by
     intro l
@@ -204,5 +528,67 @@ theorem pinv_run (sched : List Sched) : PInv (Sys.run sched).1 (Sys.run sched).2
     | nil => intro c h; exact h
     | cons x xs ih => intro c h; exact ih _ (pinv_step c.1 c.2 h x)
   exact this sched ({}, []) ⟨by intro i th h; simp at h, by intro i v s o h; simp at h⟩
+
+/-- **every poll answer, linked to the trace**: under every schedule, a returned poll handler
+performed a `Get` on its key at some point `pre` of the trace, its answer is the one `PollAns` allows
+for what that `Get` returned, and what the `Get` returned is justified by `pre` (`GotFacts`) -/
+theorem poll_answer_linked (sched : List Sched) (i v s : Nat) (o : Out)
+    (hret : Ev.returned i (.poll v s) o ∈ (Sys.run sched).2) :
+    ∃ res pre, (Ev.op i (.poll v s) (.got (pollKey s) res) :: pre) <:+ (Sys.run sched).2 ∧
+      PollAns v res o ∧ GotFacts (pollKey s) res pre := by
+  obtain ⟨res, hm, hans⟩ := (pinv_run sched).ret i v s o hret
+  obtain ⟨s1, t, hst⟩ := List.append_of_mem hm
+  have hs : (Ev.op i (.poll v s) (.got (pollKey s) res) :: t) <:+ (Sys.run sched).2 := by
+    rw [hst]; exact List.suffix_append _ _
+  exact ⟨res, t, hs, hans, (hinv_run sched).g _ _ _ _ _ hs⟩
+
+/-- the answer of a poll at service `v` whose `Get` found a record of flow `a` on ticket `tid`, by the
+last successful decision on that flow before the `Get` -/
+def AnswerFor (v tid : Nat) (dec : Option Decision) (o : Out) : Prop :=
+  (v ≠ sealer tid ∧ o = .http 500 .internal false) ∨
+  (v = sealer tid ∧
+    match dec with
+    | none => o = .http 202 .notReady false
+    | some (.approve cs) => o = .http 200 (.discharge (mkDischarge tid cs)) false ∨ o = .http 500 .internal false
+    | some (.abort msg) => o = .http 200 (.error msg) false ∨ o = .http 500 .internal false)
+
+theorem poll_answer_cases (sched : List Sched) (i v ps : Nat) (o : Out)
+    (hret : Ev.returned i (.poll v ps) o ∈ (Sys.run sched).2) :
+    ∃ res pre, (Ev.op i (.poll v ps) (.got (pollKey ps) res) :: pre) <:+ (Sys.run sched).2 ∧
+      ((res = none ∧ o = .http 404 .notFound false ∧
+          ∀ a tid us, ps = 2 * a + 1 → InsertedT pre tid ps us →
+            Ev.evicted (pollKey ps) ∈ pre ∨ ∃ j act, Ev.op j act (.removed a) ∈ pre) ∨
+       (∃ sd a tid, res = some sd ∧ ps = 2 * a + 1 ∧ sd.ticket = .good tid ∧ InsertedT pre tid ps (2 * a) ∧
+          (∀ t u, InsertedT pre t ps u → u = 2 * a) ∧ AnswerFor v tid (lastDecisionT ps (2 * a) pre) o)) := by
+  obtain ⟨res, pre, hs, hans, hsome, hnone⟩ := poll_answer_linked sched i v ps o hret
+  refine ⟨res, pre, hs, ?_⟩
+  cases res with
+  | none =>
+    left
+    refine ⟨rfl, hans, ?_⟩
+    intro a tid us hps hins
+    subst hps
+    exact hnone rfl a tid us rfl hins
+  | some sd =>
+    right
+    obtain ⟨a, tid, hk, hticket, hins, hresp, huniq⟩ := hsome sd rfl
+    have hps : ps = 2 * a + 1 := by simpa [flowKey] using hk
+    subst hps
+    refine ⟨sd, a, tid, rfl, rfl, hticket, hins, huniq, ?_⟩
+    simp only [PollAns, hticket, opens] at hans
+    by_cases hv : sealer tid = v
+    · right
+      refine ⟨hv.symm, ?_⟩
+      simp only [hv, if_true] at hans
+      rw [hresp] at hans
+      cases hd : lastDecisionT (2 * a + 1) (2 * a) pre with
+      | none => simpa [hd, respOf, outNotReady] using hans
+      | some d =>
+        cases d with
+        | approve cs => simpa [hd, respOf, deliver, outInternal] using hans
+        | abort msg => simpa [hd, respOf, deliver, outInternal] using hans
+    · left
+      simp only [hv, if_false] at hans
+      exact ⟨fun h => hv h.symm, hans⟩
 
 end Macaroon.TP
